@@ -25,9 +25,9 @@ m = {
     "setup_cmd": "./setup.sh",
     "hooks": {
         "guard": "verif",
-        "enable": "none needed: the harness reaches every anchored mechanism through the package's public API (go build -tags verif is passed for uniformity; no file in /repo carries the tag)",
+        "enable": "go build -tags verif: /repo/verif_hooks.go (the only tagged file, added, nothing rewritten) exports executorInsertObject, executorGetPointData and isListElement as VerifInsertObject / VerifPointData / VerifIsListElement for the L2 stitching correspondence (C05, C01); everything else goes through the public API",
         "baseline_off_cmd": BASE,
-        "source_commits": [],
+        "source_commits": ["2b44aff"],
         "add_only": True,
     },
     "engines": [
